@@ -41,6 +41,12 @@ def adversarial(name, p):
         return b"<" + i32(p["count"]) + b"N" * n
     if name == "many-tiny-elements":
         return b"(" + i32(n) + b"N" * n
+    if name in ("many-elements-in-frozenset", "many-elements-in-set", "many-keys-in-dict"):
+        m = max(1, min(n, 400000))
+        ints = b"".join(b"i" + i32(j) for j in range(m))
+        if name == "many-keys-in-dict":
+            return b"{" + b"".join(b"i" + i32(j) + b"N" for j in range(m)) + b"0"
+        return (b">" if name.endswith("frozenset") else b"<") + i32(m) + ints
     if name == "many-tiny-elements-in-code":
         return code_with_consts(b"(" + i32(n) + b"N" * n, p["v"])
     if name == "deep-nesting":
@@ -153,7 +159,8 @@ ADV_NAMES = ["tuple-count-lies", "list-count-lies", "set-count-lies", "many-tiny
              "self-reference-in-set", "string-length-lies", "unicode-length-lies", "long-digit-count-lies", "unknown-type-codes",
              "dict-no-terminator", "code-with-garbage-fields", "stringref-out-of-range", "unhashable-in-set",
              "null-in-odd-places", "float-text-garbage", "negative-length-in-big-container", "negative-length-string", "dropbox-encrypted", "list-containing-itself", "dict-containing-itself", "tuple-dag",
-             "tuple-dag-in-set", "tuple-dag-as-dict-key", "tuple-dag-in-code-consts", "tuple-dag-in-code-names"]
+             "tuple-dag-in-set", "tuple-dag-as-dict-key", "tuple-dag-in-code-consts", "tuple-dag-in-code-names",
+             "many-elements-in-frozenset", "many-elements-in-set", "many-keys-in-dict"]
 
 
 class C11:
@@ -231,6 +238,10 @@ class C11:
         return st.one_of(mut, mut, adv, raw, magic)
 
     def fixed_cases(self, ctx):
+        # containers of very many DISTINCT elements (linear to build; a reader that copies per element is quadratic)
+        for name in ("many-elements-in-frozenset", "many-elements-in-set", "many-keys-in-dict"):
+            for v in ("3.8", "2.7"):
+                yield {"t": "adv", "name": name, "v": v, "count": 0, "n": 150000 if ctx.tier == "quick" else 400000, "host": "3.12"}
         # correctly encrypted Dropbox files around drawn code bytes / hostile constants: every inner variant, several code strings
         for n in range(0, 28):
             yield {"t": "adv", "name": "dropbox-encrypted", "v": "2.5", "count": [5, 0x7fffffff, 0, -3 % (2 ** 32)][n % 4], "n": n, "host": "3.12"}
